@@ -198,6 +198,7 @@ def run_property(prop, tier, seed):
     extra = M.extra_substrates(prop, tier, seed, t0)
     if extra.get("violation"):
         v = extra["violation"]
+        D.log("violation: " + v["text"])
         cov["violation"] = v["text"]
         cov.update(extra.get("coverage", {}))
         D.write_evidence(prop, tier, seed, cov, time.time() - t0, 1, ASSUME)
